@@ -87,6 +87,12 @@ def validate(spans: List[List[int]], parent: Dict[int, int], depth: Dict[int, in
             _, pts, pd_ = by_id[p]
             require(pts <= ts <= pts + pd_, f"{who}:zero_parent_contains_instant",
                     lambda: f"zero event {by_id[i]} under {by_id[p]}; spans={spans}")
+        if p == -1:
+            # "placed beneath an event whose closed span contains its instant": the root is acceptable only when no
+            # positive-duration event's closed span contains the instant
+            cont = [x for x in spans if x[2] > 0 and x[1] <= ts <= x[1] + x[2]]
+            require(not cont, f"{who}:zero_beneath_a_containing_event",
+                    lambda: f"zero event {by_id[i]} is at the root although {cont[:3]} contain its instant; spans={spans}")
         for j, jts, jd in spans:
             if jd > 0 and jts < ts < jts + jd:
                 require(j in anc[i], f"{who}:zero_under_strict_container",
@@ -160,6 +166,16 @@ def _file_case(case: Dict[str, Any]) -> Tuple[Dict[str, Any], List[List[int]]]:
         events.append({"ph": "X", "cat": "cpu_op", "name": f"aten::op{len(events) % 5}", "pid": PID, "tid": TID, "ts": ts,
                        "dur": d, "args": {"External id": len(events)}})
     new_spans = [[pos_of[i], ts, d] for i, ts, d in spans]
+    # events of another host thread and GPU kernels that start/end exactly at instants of the family: the call stack of
+    # a thread must not depend on what other threads or streams do
+    for k, (a, b) in enumerate(case.get("others", [])):
+        lo, hi = min(a, b), max(a, b)
+        if k % 2 == 0:
+            events.append({"ph": "X", "cat": "cpu_op", "name": "aten::other_thread", "pid": PID, "tid": TID + 1, "ts": lo, "dur": hi - lo,
+                           "args": {"External id": 900 + k}})
+        else:
+            events.append({"ph": "X", "cat": "kernel", "name": "gemm_kernel_a", "pid": 3, "tid": 7, "ts": lo, "dur": hi - lo,
+                           "args": {"stream": 7, "correlation": 5000 + k}})
     return {"ranks": [{"rank": 0, "events": events}], "fmt": "json"}, new_spans
 
 
@@ -175,9 +191,9 @@ def check_file(case: Dict[str, Any]) -> CaseInfo:
 
         cg = hta_call("trace_call_graph.CallGraph", lambda: CallGraph(t))
         df = t.get_trace(0)
-        shift = min(s[1] for s in spans)  # loaded times are shifted; spans only matter relative
-        parent = {int(i): (int(p) if p >= 0 else -1) for i, p in df["parent"].items()}
-        depth = {int(i): int(x) for i, x in df["depth"].items()}
+        own = set(int(i) for i in df.index[(df["tid"] == TID) & (df["stream"] == -1)])
+        parent = {int(i): (int(p) if p >= 0 else -1) for i, p in df["parent"].items() if int(i) in own}
+        depth = {int(i): int(x) for i, x in df["depth"].items() if int(i) in own}
         children: Dict[int, List[int]] = {-1: []}
         for i, p in parent.items():
             children.setdefault(p, []).append(i)
@@ -186,8 +202,8 @@ def check_file(case: Dict[str, Any]) -> CaseInfo:
         t2 = load_trace(files, d)
         cga = hta_call("call_stack.CallGraph", lambda: CallGraphA(t2))
         df2 = t2.get_trace(0)
-        parent_a = {int(i): int(p) for i, p in df2["parent"].items()}
-        depth_a = {int(i): int(x) for i, x in df2["depth"].items()}
+        parent_a = {int(i): int(p) for i, p in df2["parent"].items() if int(i) in own}
+        depth_a = {int(i): int(x) for i, x in df2["depth"].items() if int(i) in own}
         children_a: Dict[int, List[int]] = {-1: []}
         for i, p in parent_a.items():
             children_a.setdefault(p, []).append(i)
@@ -195,11 +211,20 @@ def check_file(case: Dict[str, Any]) -> CaseInfo:
     kinds = tie_kinds(spans)
     nt = any(k in kinds for k in ("shared_start", "shared_end", "identical", "touching", "zero_at_touching_boundary",
                                   "zero_at_end", "zero_at_start"))
-    return CaseInfo(nontrivial=nt, classes=list(kinds) + ["via_file"])
+    return CaseInfo(nontrivial=nt, classes=list(kinds) + ["via_file"] + (["other_thread_or_stream_events"] if case.get("others") else []))
+
+
+@st.composite
+def family_with_other_threads(draw):
+    case = draw(span_family(max_events=16))
+    instants = sorted({ts for _, ts, _ in case["spans"]} | {ts + d for _, ts, d in case["spans"]})
+    n = draw(st.sampled_from([0, 2, 3, 5]))
+    case["others"] = [[draw(st.sampled_from(instants)), draw(st.sampled_from(instants + [instants[0] - 1, instants[-1] + 2]))] for _ in range(n)]
+    return case
 
 
 def view(case):
-    return {"spans[id,ts,dur]": case["spans"], "row_order": case["row_order"]}
+    return {"spans[id,ts,dur]": case["spans"], "row_order": case["row_order"], "others": case.get("others")}
 
 
 REQ = {"identical": 0.1, "shared_start": 0.1, "shared_end": 0.15, "touching": 0.15, "zero_interior": 0.04,
@@ -210,6 +235,6 @@ def campaigns(tier: str) -> List[Campaign]:
     return [
         Campaign("direct", span_family(), check_direct, quick=3200, thorough=320000, quick_shards=8, fuzz_runs=80000,
                  required_classes=REQ, sample_view=view),
-        Campaign("via_file", span_family(max_events=16), check_file, quick=240, thorough=16000, quick_shards=8,
-                 required_classes={"touching": 0.1}, sample_view=view),
+        Campaign("via_file", family_with_other_threads(), check_file, quick=320, thorough=16000, quick_shards=8,
+                 required_classes={"touching": 0.1, "other_thread_or_stream_events": 0.3}, sample_view=view),
     ]
